@@ -285,6 +285,14 @@ fn write_fg_span(buffer: &mut String, style: &anstyle::Style, fragment: &str) {
     let hidden = effects.contains(anstyle::Effects::HIDDEN);
 
     let fragment = html_escape::encode_text(fragment);
+    // A literal carriage return is subject to XML end-of-line handling (a conforming parser
+    // reports it as a line feed, or swallows it in front of one), so a carriage return that
+    // is part of the text is written as a character reference, which parsers hand back as-is.
+    let fragment = if fragment.contains('\r') {
+        std::borrow::Cow::Owned(fragment.replace('\r', "&#13;"))
+    } else {
+        fragment
+    };
     let mut classes = Vec::new();
     if let Some(class) = fg_color.as_deref() {
         classes.push(class);
